@@ -280,6 +280,7 @@ func checkC19(cx *Ctx, r *Report) {
 	}
 	cx.checkIssuerSchemeFlag(r)
 	cx.checkHeaderOrder(r)
+	cx.checkIssuerMiddlewareInstalled(r)
 	// scheme chosen by allowInsecure alone; leading slash rule
 	if di := w.Func("provider.dynamicIssuer"); di != nil {
 		aps, ok := fx.atomPaths(di, 256)
@@ -329,6 +330,74 @@ func checkC19(cx *Ctx, r *Report) {
 // checkHeaderOrder: "the first host of the configured forwarding headers" means configured order. No function of
 // the issuer configuration code re-orders or thins out a list of header names (sort, compact, reverse): the list a
 // request is judged by is the one configured, element for element.
+// checkIssuerMiddlewareInstalled: the derived issuer reaches the handlers only through the request context, which the
+// issuer interceptor fills. CreateRouter must install it on every path: a router.Use call that lies on all paths to
+// the return and whose argument leads to (*IssuerInterceptor).setIssuerCtx, fed with the provider's issuerFromRequest.
+func (cx *Ctx) checkIssuerMiddlewareInstalled(r *Report) {
+	w, fx := cx.W, cx.Fx
+	cr := w.Func("provider.CreateRouter")
+	set := w.Func("provider.(*IssuerInterceptor).setIssuerCtx")
+	if cr == nil || set == nil {
+		r.Fail("R-WHO", "issuer-middleware", "", "anchor provider.CreateRouter / setIssuerCtx not found")
+		return
+	}
+	ok := false
+	for _, c := range callsIn(cr) {
+		if calleeName(c) != "(*github.com/gorilla/mux.Router).Use" {
+			continue
+		}
+		in := c.(ssa.Instruction)
+		uncond := true
+		for _, ret := range returnsOf(cr) {
+			if ret.Block() != in.Block() && reachAvoidingBlock(cr.Blocks[0], ret.Block(), in.Block()) && in.Block() != cr.Blocks[0] {
+				uncond = false
+			}
+		}
+		if !uncond {
+			continue
+		}
+		// what is installed leads to setIssuerCtx
+		sc := map[*ssa.Function]bool{}
+		for _, a := range c.Common().Args[1:] {
+			tg, _ := fx.funcTargets(a)
+			for _, f := range tg {
+				w.refClosure(f, sc)
+			}
+			if call, isCall := a.(*ssa.Call); isCall {
+				if f := calleeOf(call); f != nil {
+					w.refClosure(f, sc)
+				}
+			}
+			if sl, isSl := a.(*ssa.Slice); isSl {
+				// variadic argument list: the elements stored into the backing array
+				if al, isAl := sl.X.(*ssa.Alloc); isAl {
+					for _, ref := range nonDebugRefs(al) {
+						if ia, isIA := ref.(*ssa.IndexAddr); isIA {
+							for _, r2 := range nonDebugRefs(ia) {
+								if st, isSt := r2.(*ssa.Store); isSt {
+									if call, isCall := st.Val.(*ssa.Call); isCall {
+										if f := calleeOf(call); f != nil {
+											w.refClosure(f, sc)
+										}
+									}
+									tg, _ := fx.funcTargets(st.Val)
+									for _, f := range tg {
+										w.refClosure(f, sc)
+									}
+								}
+							}
+						}
+					}
+				}
+			}
+		}
+		if sc[set] {
+			ok = true
+		}
+	}
+	r.Check(ok, "R-WHO", "issuer-middleware", w.FnPos(cr), "CreateRouter installs the issuer interceptor for every route", "CreateRouter does not (unconditionally) install a middleware that reaches setIssuerCtx: handlers see an empty issuer, not the one derived from the request")
+}
+
 // isOptionFunc: fn has the shape of a provider Option: func(*Provider) error.
 func isOptionFunc(fn *ssa.Function) bool {
 	sig := fn.Signature
